@@ -503,6 +503,13 @@ class WsgiApplication(HttpBase):
         except Exception as e:
             logger.exception(e)
             p_ctx.out_error = Fault('Server', get_fault_string_from_exception(e))
+            # drop whatever the failed serialization left behind, otherwise
+            # the half-built document is sent instead of the fault, as a success
+            p_ctx.out_document = None
+            p_ctx.out_body_doc = None
+            p_ctx.out_header_doc = None
+            p_ctx.transport.resp_code = None
+            p_ctx.fire_event('method_exception_object')
             return self.handle_error(p_ctx, others, p_ctx.out_error,
                                                                  start_response)
 
